@@ -64,3 +64,17 @@ package common
 //@   ensures [one-line-per-matcher] count("Matcher).String") == len(m) && !called("strconv.Quote")
 //@   loop 1 invariant rangeindex < len(m) && count("Matcher).String") == rangeindex + 1 && !called("strconv.Quote")
 //@   noeffect Matcher).String
+
+// ---- C03 / C07 / C17: a matcher list of the configuration keeps every matcher of every line: each line goes through
+// the configured parser, everything it yields is appended, and the list is only *sorted* afterwards - never filtered,
+// merged or de-duplicated.
+//@ func (*Matchers).UnmarshalYAML
+//@   props C03 C07 C17 C16
+//@   nosafe
+//@   at call dynamic:global:parseMatchers assert [every-line-through-the-configured-parser] arg0 == lines[rangeindex1 + 1]
+//@   ensures [decoder-error-is-reported] called("dynamic:param:unmarshal") && (ret("dynamic:param:unmarshal") != nil ==> result == ret("dynamic:param:unmarshal"))
+//@   ensures [parse-error-is-reported] called("dynamic:global:parseMatchers") && ret1("dynamic:global:parseMatchers") != nil ==> result == ret1("dynamic:global:parseMatchers")
+//@   ensures [every-line-parsed-then-sorted-once] result == nil ==> count("dynamic:global:parseMatchers") == len(lines) && count("sort.Sort") == 1
+//@   loop 1 invariant rangeindex < len(lines) && count("dynamic:global:parseMatchers") == rangeindex + 1 && !called("sort.Sort") && (called("dynamic:global:parseMatchers") ==> ret1("dynamic:global:parseMatchers") == nil)
+//@   loop 1 earlyexit called("dynamic:global:parseMatchers") && ret1("dynamic:global:parseMatchers") != nil
+//@   noeffect dynamic:global:parseMatchers
